@@ -170,12 +170,16 @@ func checkHashes(b *harness.B, rng *rand.Rand, n int) {
 				pre = append(pre, each(i)...)
 			}
 		}
-		list(len(txn.SiacoinInputs), func(i int) []byte { return append(append([]byte{}, prefix...), must(layoutEncode("SiacoinInput", txn.SiacoinInputs[i]))...) })
+		list(len(txn.SiacoinInputs), func(i int) []byte {
+			return append(append([]byte{}, prefix...), must(layoutEncode("SiacoinInput", txn.SiacoinInputs[i]))...)
+		})
 		list(len(txn.SiacoinOutputs), func(i int) []byte { return must(layoutEncode("V1SiacoinOutput", txn.SiacoinOutputs[i])) })
 		list(len(txn.FileContracts), func(i int) []byte { return must(layoutEncode("FileContract", txn.FileContracts[i])) })
 		list(len(txn.FileContractRevisions), func(i int) []byte { return must(layoutEncode("FileContractRevision", txn.FileContractRevisions[i])) })
 		list(len(txn.StorageProofs), func(i int) []byte { return must(layoutEncode("StorageProof", txn.StorageProofs[i])) })
-		list(len(txn.SiafundInputs), func(i int) []byte { return append(append([]byte{}, prefix...), must(layoutEncode("SiafundInput", txn.SiafundInputs[i]))...) })
+		list(len(txn.SiafundInputs), func(i int) []byte {
+			return append(append([]byte{}, prefix...), must(layoutEncode("SiafundInput", txn.SiafundInputs[i]))...)
+		})
 		list(len(txn.SiafundOutputs), func(i int) []byte { return must(layoutEncode("V1SiafundOutput", txn.SiafundOutputs[i])) })
 		list(len(txn.MinerFees), func(i int) []byte { return must(layoutEncode("V1Currency", txn.MinerFees[i])) })
 		list(len(txn.ArbitraryData), func(i int) []byte { var e lenc; e.encode(reflect.ValueOf(txn.ArbitraryData[i]), "bytes"); return e.b })
@@ -204,7 +208,9 @@ func checkHashes(b *harness.B, rng *rand.Rand, n int) {
 		add(len(txn.SiacoinInputs), &cf.SiacoinInputs, func() []byte {
 			return append(append([]byte{}, prefix...), must(layoutEncode("SiacoinInput", txn.SiacoinInputs[len(txn.SiacoinInputs)-1]))...)
 		})
-		add(len(txn.SiacoinOutputs), &cf.SiacoinOutputs, func() []byte { return must(layoutEncode("V1SiacoinOutput", txn.SiacoinOutputs[len(txn.SiacoinOutputs)-1])) })
+		add(len(txn.SiacoinOutputs), &cf.SiacoinOutputs, func() []byte {
+			return must(layoutEncode("V1SiacoinOutput", txn.SiacoinOutputs[len(txn.SiacoinOutputs)-1]))
+		})
 		add(len(txn.FileContracts), &cf.FileContracts, func() []byte { return must(layoutEncode("FileContract", txn.FileContracts[len(txn.FileContracts)-1])) })
 		add(len(txn.FileContractRevisions), &cf.FileContractRevisions, func() []byte {
 			return must(layoutEncode("FileContractRevision", txn.FileContractRevisions[len(txn.FileContractRevisions)-1]))
@@ -213,14 +219,18 @@ func checkHashes(b *harness.B, rng *rand.Rand, n int) {
 		add(len(txn.SiafundInputs), &cf.SiafundInputs, func() []byte {
 			return append(append([]byte{}, prefix...), must(layoutEncode("SiafundInput", txn.SiafundInputs[len(txn.SiafundInputs)-1]))...)
 		})
-		add(len(txn.SiafundOutputs), &cf.SiafundOutputs, func() []byte { return must(layoutEncode("V1SiafundOutput", txn.SiafundOutputs[len(txn.SiafundOutputs)-1])) })
+		add(len(txn.SiafundOutputs), &cf.SiafundOutputs, func() []byte {
+			return must(layoutEncode("V1SiafundOutput", txn.SiafundOutputs[len(txn.SiafundOutputs)-1]))
+		})
 		add(len(txn.MinerFees), &cf.MinerFees, func() []byte { return must(layoutEncode("V1Currency", txn.MinerFees[len(txn.MinerFees)-1])) })
 		add(len(txn.ArbitraryData), &cf.ArbitraryData, func() []byte {
 			var e lenc
 			e.encode(reflect.ValueOf(txn.ArbitraryData[len(txn.ArbitraryData)-1]), "bytes")
 			return e.b
 		})
-		add(len(txn.Signatures), &cf.Signatures, func() []byte { return must(layoutEncode("TransactionSignature", txn.Signatures[len(txn.Signatures)-1])) })
+		add(len(txn.Signatures), &cf.Signatures, func() []byte {
+			return must(layoutEncode("TransactionSignature", txn.Signatures[len(txn.Signatures)-1]))
+		})
 		cmp(fmt.Sprintf("State.PartialSigHash/replay-prefix-%x", prefix), cs.PartialSigHash(txn, cf), h256(pre), wit)
 
 		// v2 transaction
